@@ -1,5 +1,6 @@
 """C06 - any revoked commitment the counterparty confirms is fully punished (structural part)."""
 from engine import *
+import obligations
 import provenance
 import tlv
 
@@ -400,3 +401,4 @@ RULES = [
 	('06.z', 'named protocol / policy constants in this property\'s files have their reviewed values (rules/provenance.py)', lambda F: provenance.consts_for_property(F, 'C06', '06.z')),
 	('06.s', 'no reviewed function gained a short-circuiting iterator adaptor (find / find_map / take / position ...: an every-element walk that stops at the first match; rules/provenance.py)', lambda F: provenance.sc_for_property(F, 'C06', '06.s')),
 ]
+RULES.append(('06.u', 'obligation-carrying values returned by workspace calls (to-fail HTLC lists, monitor updates, events, peer messages, claim packages) are never dropped on a path that does not examine them (rules/obligations.py)', lambda F: obligations.for_property(F, 'C06', '06.u')))
